@@ -9,8 +9,6 @@ import (
 	"sort"
 	"strings"
 
-	"github.com/valyala/fasthttp"
-
 	"verifmc/core"
 )
 
@@ -19,14 +17,19 @@ func alphabet(full bool) []hop {
 		{Kind: "req", Key: "a", Status: 200}, {Kind: "req", Key: "a", Status: 500}, {Kind: "req", Key: "b", Status: 200},
 		{Kind: "req", Key: "b", Status: 500}, {Kind: "req", Key: "a", Status: 500, Slow: W}, {Kind: "req", Key: "b", Status: 200, Slow: W},
 	}
-	ticks := []int{1, W - 1, W, W + 1}
+	return append(ops, ticks(full)...)
+}
+
+func ticks(full bool) []hop {
+	ts := []int{1, W - 1, W, W + 1}
 	if full {
-		ticks = []int{1, W / 2, W - 1, W, W + 1, 2*W + 1}
+		ts = []int{1, W / 2, W - 1, W, W + 1, 2*W + 1}
 	}
-	for _, t := range ticks {
-		ops = append(ops, hop{Kind: "tick", Tick: t})
+	var out []hop
+	for _, t := range ts {
+		out = append(out, hop{Kind: "tick", Tick: t})
 	}
-	return ops
+	return out
 }
 
 func configs() []hcfg {
@@ -35,12 +38,88 @@ func configs() []hcfg {
 		for _, s := range []string{"memory", "injected"} {
 			for _, k := range []string{"none", "failed", "successful"} {
 				for _, l := range []string{"static2", "func-a1-b3", "func0"} {
-					out = append(out, hcfg{a, s, k, l})
+					out = append(out, hcfg{Algo: a, Storage: s, Skip: k, Limit: l})
 				}
 			}
 		}
 	}
 	return out
+}
+
+// family is one enumerated set of histories: every sequence of exactly Depth letters of Alpha
+// (the last Own letters are the family's own: a history must use at least one of them) under
+// every configuration of Cfgs; with Overlap every such history is run once per choice of one
+// request and a number k >= 1 of following operations that happen while its handler runs.
+type family struct {
+	Name    string
+	Depth   int
+	Alpha   []hop
+	Own     int
+	Cfgs    []hcfg
+	Overlap bool
+	Resolve bool // letters with repetitions / window-relative ticks: expanded per configuration
+}
+
+func families(quick bool) []family {
+	// one step less than the base family (quick 4, thorough 5); always the short tick set
+	const full = false
+	d := 4
+	if !quick {
+		d = 5
+	}
+	base := alphabet(full)
+	withCfg := func(f func(*hcfg)) []hcfg {
+		out := configs()
+		for i := range out {
+			f(&out[i])
+		}
+		return out
+	}
+	// handler behaviours and requests exempted by Config.Next, on top of the base letters
+	own := []hop{
+		{Kind: "req", Key: "a", Status: 500, How: "err"}, {Kind: "req", Key: "b", Status: 500, How: "err"},
+		{Kind: "req", Key: "a", Status: 500, How: "plainerr"},
+		{Kind: "req", Key: "a", Status: 200, Bypass: true}, {Kind: "req", Key: "b", Status: 500, Bypass: true},
+	}
+	// the limit travels with the request: one key asks for different limits
+	reqlimit := []hop{
+		{Kind: "req", Key: "a", Status: 200, Max: 1}, {Kind: "req", Key: "a", Status: 200, Max: 3},
+		{Kind: "req", Key: "a", Status: 500, Max: 1}, {Kind: "req", Key: "a", Status: 500, Max: 3},
+		{Kind: "req", Key: "b", Status: 200, Max: 2},
+	}
+	var rl []hcfg
+	for _, c := range configs() {
+		if c.Limit == "static2" {
+			c.Limit = "func-req"
+			rl = append(rl, c)
+		}
+	}
+	// configuration fields left at their zero value (documented defaults: Max 5, Expiration 1 minute, key = c.IP())
+	// and another window length; five requests in a row as one letter so that the default limit is reached
+	dl := []hop{
+		{Kind: "req", Key: "a", Status: 200}, {Kind: "req", Key: "a", Status: 200, Times: 4},
+		{Kind: "req", Key: "b", Status: 200}, {Kind: "req", Key: "b", Status: 200, Times: 5},
+		{Kind: "tick", Tick: 1}, {Kind: "tick", AtW: true, Off: -1}, {Kind: "tick", AtW: true, Off: 0}, {Kind: "tick", AtW: true, Off: 1},
+	}
+	var dcfg []hcfg
+	for _, a := range []string{"fixed", "sliding"} {
+		for _, st := range []string{"memory", "injected"} {
+			for _, df := range []string{"all", "max", "exp", "keygen", "exp3"} {
+				c := hcfg{Algo: a, Storage: st, Skip: "none", Limit: "static2", Dflt: df}
+				if df == "all" || df == "max" {
+					c.Limit = "default5"
+				}
+				dcfg = append(dcfg, c)
+			}
+		}
+	}
+	return []family{
+		{Name: "unset-config-fields+window3", Depth: d + 1, Alpha: dl, Cfgs: dcfg, Resolve: true},
+		{Name: "handler-kinds+bypass", Depth: d, Alpha: append(append([]hop{}, base...), own...), Own: len(own), Cfgs: withCfg(func(c *hcfg) { c.Next = true })},
+		{Name: "per-request-limit", Depth: d + 1, Alpha: append(reqlimit, ticks(full)...), Cfgs: rl},
+		{Name: "overlap", Depth: d, Alpha: base, Cfgs: configs(), Overlap: true},
+		{Name: "uncopied-key-reused-ctx", Depth: d, Alpha: base, Cfgs: withCfg(func(c *hcfg) { c.Key = "raw" })},
+	}
 }
 
 func main() {
@@ -53,32 +132,42 @@ func main() {
 	}
 	cfgs := configs()
 	if dbg := os.Getenv("C13_DEBUG"); dbg != "" {
-		// C13_DEBUG=algo,storage,skip,limit : enumerate that configuration alone and print the shortest case per violation class
+		// C13_DEBUG=algo,storage,skip,limit[,family] : enumerate that configuration alone (base family, or the named
+		// family restricted to the matching configurations) and print the shortest case per violation class
 		f := strings.Split(dbg, ",")
 		l := core.NewLocal()
-		var fctx fasthttp.RequestCtx
-		cc := hcfg{f[0], f[1], f[2], f[3]}
-		for d := 1; d <= depth; d++ {
-			ops := make([]hop, d)
-			total := 1
-			for i := 0; i < d; i++ {
-				total *= len(alpha)
-			}
-			for h := 0; h < total; h++ {
-				x := h
-				for i := 0; i < d; i++ {
-					ops[i] = alpha[x%len(alpha)]
-					x /= len(alpha)
+		var ctxs ctxPair
+		fam := family{Name: "base", Depth: depth, Alpha: alpha, Cfgs: []hcfg{{Algo: f[0], Storage: f[1], Skip: f[2], Limit: f[3]}}}
+		if len(f) > 4 {
+			for _, x := range families(r.Quick()) {
+				if x.Name == f[4] {
+					fam = x
+					fam.Cfgs = nil
+					for _, c := range x.Cfgs {
+						if c.Algo == f[0] && c.Storage == f[1] && c.Skip == f[2] && (c.Limit == f[3] || f[3] == "*") {
+							fam.Cfgs = append(fam.Cfgs, c)
+						}
+					}
 				}
-				runHistory(cc, ops, l, &fctx)
 			}
+		}
+		idx := 0
+		for d := 1; d <= fam.Depth; d++ {
+			fd := fam
+			fd.Depth = d
+			enumerateFamily(nil, fd, l, &ctxs, &idx)
 		}
 		seen := map[string]bool{}
 		var keys []string
 		for k := range l.P.Violations {
 			keys = append(keys, k)
 		}
-		sort.Slice(keys, func(i, j int) bool { return len(keys[i]) < len(keys[j]) })
+		sort.Slice(keys, func(i, j int) bool {
+			if len(keys[i]) != len(keys[j]) {
+				return len(keys[i]) < len(keys[j])
+			}
+			return keys[i] < keys[j]
+		})
 		for _, k := range keys {
 			cls := strings.SplitN(k, " ", 2)[0]
 			if seen[cls] {
@@ -87,50 +176,87 @@ func main() {
 			seen[cls] = true
 			fmt.Println(k, "\n   ", core.Key(l.P.Violations[k].Case), "\n    observed", core.Key(l.P.Violations[k].Observed), "expected", core.Key(l.P.Violations[k].Expected))
 		}
+		fmt.Println("histories", l.P.Counters["histories"], "violation signatures", len(keys), "downstream_status_differs", l.P.Counters["downstream_status_differs"])
 		return
 	}
 	runSchedules(r, depth, alpha, cfgs)
 }
 
-// enumerate all histories of exactly `depth` ops whose index (in base-|alpha|) is owned by this worker
+// enumerate all histories of every family whose running index is owned by this worker
 func enumerateHistories(r *core.Run, depth int, alpha []hop, cfgs []hcfg) {
 	l := core.NewLocal()
-	var fctx fasthttp.RequestCtx
-	n := len(alpha)
+	var ctxs ctxPair
+	idx := 0
+	only := os.Getenv("C13_FAMILY") // diagnostic: run one family alone
+	fams := append([]family{{Name: "base", Depth: depth, Alpha: alpha, Cfgs: cfgs}}, families(r.Quick())...)
+	for _, f := range fams {
+		if only != "" && only != f.Name {
+			continue
+		}
+		if !enumerateFamily(r, f, l, &ctxs, &idx) {
+			break
+		}
+	}
+	r.Merge(l.P)
+}
+
+func enumerateFamily(r *core.Run, f family, l *core.Local, ctxs *ctxPair, idx *int) bool {
+	n := len(f.Alpha)
+	depth := f.Depth
 	total := 1
 	for i := 0; i < depth; i++ {
 		total *= n
 	}
 	ops := make([]hop, depth)
-	idx := 0
-	for ci, c := range cfgs {
+	run := make([]hop, depth)
+	for ci, c := range f.Cfgs {
 		for h := 0; h < total; h++ {
-			idx++
-			if !r.Shard(idx) {
+			*idx++
+			if r != nil && !r.Shard(*idx) {
 				continue
 			}
 			x := h
-			useful := false
+			useful, own := false, f.Own == 0
 			for i := 0; i < depth; i++ {
-				ops[i] = alpha[x%n]
+				ops[i] = f.Alpha[x%n]
+				if x%n >= n-f.Own {
+					own = true
+				}
 				x /= n
 				if ops[i].Kind == "req" {
 					useful = true
 				}
 			}
-			if !useful {
+			if !useful || !own {
 				continue
 			}
 			// a trailing tick adds nothing: such histories are prefixes of others
 			if ops[depth-1].Kind == "tick" {
 				continue
 			}
-			runHistory(c, ops, l, &fctx)
+			before := l.P.Counters["histories"]
+			if f.Resolve {
+				runHistory(c, resolve(c, ops), l, ctxs)
+			} else if !f.Overlap {
+				runHistory(c, ops, l, ctxs)
+			} else {
+				for i := 0; i < depth-1; i++ {
+					if ops[i].Kind != "req" {
+						continue
+					}
+					for k := 1; i+k < depth; k++ {
+						copy(run, ops)
+						run[i].Defer = k
+						runHistory(c, run, l, ctxs)
+					}
+				}
+			}
+			l.Add("histories:"+f.Name, l.P.Counters["histories"]-before)
 		}
-		if r.Expired() {
-			r.Cap(fmt.Sprintf("wall-clock budget reached in harness A at config %d/%d", ci, len(cfgs)))
-			break
+		if r != nil && r.Expired() {
+			r.Cap(fmt.Sprintf("wall-clock budget reached in harness A family %s at config %d/%d", f.Name, ci, len(f.Cfgs)))
+			return false
 		}
 	}
-	r.Merge(l.P)
+	return true
 }
